@@ -41,7 +41,7 @@ NoBrowse == [na |-> FALSE, ns |-> "", nt |-> "", pa |-> FALSE, ps |-> "", pt |->
 NoMapped == [k \in {} |-> NoVal]
 
 NewSession(cap, nflags) ==
-  [path |-> <<>>, idx |-> 0, flags |-> {}, code |-> <<>>, c |-> New(cap), nflags |-> nflags,
+  [path |-> <<>>, idx |-> 0, flags |-> {}, code |-> <<>>, c |-> New(cap), nflags |-> nflags, maxlevel |-> MaxLevel,
    input |-> NoInput, lang |-> "", ctxlang |-> "",
    mapped |-> NoMapped, psink |-> "", errp |-> NoErr,
    menu |-> <<>>, browse |-> NoBrowse, pcount |-> 0, msink |-> FALSE,
@@ -102,8 +102,8 @@ ApplyTarget(s, t, ac) ==
     [] ac = "^" -> R(Rewind(s), FALSE, FALSE)    \* RewindAtTopKeepsIndex, RewindOnEmptyPathIsSilent (code)
     [] ac = "." -> R(s, FALSE, FALSE)
     [] OTHER    -> \* descend
-                   IF Len(s.path) > MaxLevel THEN R(s, TRUE, FALSE)                                   \* max levels exceeded: an error (C08)
-                   ELSE IF Len(s.path) > 0 /\ Top(s) = t THEN [R(s, TRUE, FALSE) EXCEPT !.panic = TRUE]   \* state.Down: same node (outside C08's hypothesis)
+                   IF Len(s.path) > 0 /\ Top(s) = t THEN R(s, TRUE, FALSE)          \* already there: an error
+                   ELSE IF Len(s.path) > s.maxlevel THEN R(s, TRUE, FALSE)           \* max levels exceeded: an error (C08)
                    ELSE R(SetC([s EXCEPT !.path = Append(@, t), !.idx = 0], Push(s.c)), FALSE, FALSE)
 
 \* vm.Reset(): fresh menu (no items, no browse config, no page count, not a sink), page mappings and sink dropped
@@ -223,7 +223,7 @@ DeadCheck(s) ==
   ELSE [s |-> [s EXCEPT !.errp = [cls |-> "invalid", arg |-> IF s.input.set THEN s.input.v ELSE "(no input)"],
                         !.code = CatchCode], err |-> FALSE]
 
-It(s, e, d) == [s |-> s, err |-> e, done |-> d, panic |-> FALSE]
+It(s, e, d) == [s |-> s, err |-> e, done |-> d, panic |-> FALSE, diverged |-> FALSE]
 Iter(s) ==
   IF TERMINATE \in s.flags THEN It([s EXCEPT !.code = <<>>], FALSE, TRUE)     \* C06: nothing runs while TERMINATE is set
   ELSE LET s1 == Prologue(s) IN
@@ -232,7 +232,7 @@ Iter(s) ==
             IF r.panic THEN [It(r.s, TRUE, TRUE) EXCEPT !.panic = TRUE]
             ELSE IF r.halt THEN It(r.s, r.err, TRUE)
             ELSE LET r2 == IF r.err
-                           THEN (IF LOADFAIL \in r.s.flags          \* LoadfailIsSticky (code): never cleared by the VM
+                           THEN (IF LOADFAIL \in r.s.flags /\ Top(r.s) # "_catch"   \* LoadfailIsSticky (code): never cleared by the VM
                                  THEN [s |-> [r.s EXCEPT !.errp = [cls |-> "err", arg |-> ""], !.code = CatchCode], err |-> FALSE]
                                  ELSE [s |-> [r.s EXCEPT !.errp = [cls |-> "err", arg |-> ""]], err |-> TRUE])
                            ELSE [s |-> r.s, err |-> FALSE] IN
@@ -240,8 +240,15 @@ Iter(s) ==
                  ELSE LET r3 == IF r2.s.code = <<>> THEN DeadCheck(r2.s) ELSE r2 IN
                       It(r3.s, r3.err, r3.err \/ r3.s.code = <<>>)
 
-RECURSIVE RunLoop(_)
-RunLoop(s) == LET r == Iter(s) IN IF r.done THEN r ELSE RunLoop(r.s)
+\* the whole run; Fuel bounds the evaluation (a run that does not end within Fuel iterations is reported as diverged)
+Fuel == 400
+RECURSIVE RunLoopN(_, _)
+RunLoopN(s, n) == IF n = 0 THEN [It(Bad(s, "diverged"), TRUE, TRUE) EXCEPT !.diverged = TRUE]
+                  ELSE LET r == Iter(s) IN IF r.done THEN r ELSE RunLoopN(r.s, n - 1)
+RunLoop(s) == RunLoopN(s, Fuel)
+\* a new run handles a new input: the match of the previous one is forgotten (nothing changes while TERMINATE is set)
+RunStart(s) == IF TERMINATE \in s.flags THEN s ELSE [s EXCEPT !.flags = @ \ {INMATCH}]
+Run(s) == RunLoop(RunStart(s))
 
 (***************************************************************************)
 (* Projections compared by the properties                                  *)
